@@ -3,6 +3,15 @@ use std::str::FromStr;
 
 // Polynomial Parsing Macros
 
+// `{:?}` prints a non-finite value as `inf` or `NaN`, which are not expressions
+fn float_tokens(value: f64) -> String {
+    if value.is_finite() {
+        format!("{value:?}")
+    } else {
+        format!("f64::from_bits({}u64)", value.to_bits())
+    }
+}
+
 #[proc_macro]
 pub fn parse_simple_polynomial(input: TokenStream) -> TokenStream {
     let output =
@@ -19,7 +28,7 @@ pub fn parse_simple_polynomial(input: TokenStream) -> TokenStream {
     let mut tokens = String::from("::spindalis_core::polynomials::structs::SimplePolynomial { ");
     tokens.push_str("coefficients: vec![");
     for coeff in output.coefficients {
-        tokens.push_str(&format!("{coeff:?},"));
+        tokens.push_str(&format!("{},", float_tokens(coeff)));
     }
     tokens.push_str("], ");
     tokens.push_str(&format!("variable: {:?}, ", output.variable));
@@ -46,11 +55,11 @@ pub fn parse_intermediate_polynomial(input: TokenStream) -> TokenStream {
     tokens.push_str("terms: vec![");
     for term in output.terms {
         tokens.push_str(&format!(
-            "::spindalis_core::polynomials::Term {{ coefficient: {:?}, variables: vec![",
-            term.coefficient,
+            "::spindalis_core::polynomials::Term {{ coefficient: {}, variables: vec![",
+            float_tokens(term.coefficient),
         ));
         for (var, pow) in term.variables {
-            tokens.push_str(&format!("(\"{var}\".to_string(), {pow:?}),"));
+            tokens.push_str(&format!("(\"{var}\".to_string(), {}),", float_tokens(pow)));
         }
         tokens.push_str("] },");
     }
